@@ -1,5 +1,6 @@
 import Peppi.JsonText
 import Peppi.Tar
+import Peppi.TarCut
 import Peppi.ReadStream
 import Peppi.Write
 import Peppi.Utf8
@@ -153,6 +154,15 @@ partial def loop (h : IO.FS.Stream) : IO Unit := do
       else IO.println s!"ok differ n={es.length} first={first} sig={sig} model_len={b.length} real_len={a.length}"
     | .err e => IO.println s!"err {e}"
     | .panic p => IO.println s!"panic {p}"
+  | ["tarscan", hex] =>
+    -- the lazy tar iterator on any byte string (a prefix of a written archive): members yielded, then how it ended
+    let a := parseHex hex
+    let r := tarScan (a.length / 512 + 2) a
+    let items := r.1.map fun it => match it with
+      | .entry n b => s!"E:{String.fromUTF8! (ByteArray.mk n.toArray)}:{b.length}:{(b.foldl (fun acc x => (acc * 31 + x.toNat) % 4294967296) 7)}"
+      | .broken => "B"
+    let broken := r.1.any fun it => match it with | .broken => true | _ => false
+    IO.println (String.intercalate " " (items ++ (if broken then [] else [s!"t={if r.2 then 1 else 0}"])))
   | ["rt", hex] =>
     let r := (readSlp T {} (parseHex hex)).bind writeSlp
     match r with
